@@ -30,14 +30,14 @@ CHECKS = {
     "C05": {"level": "exploration", "tests": [
         det("TestC05Grid"),
         direct("TestC05Random", q=100000, t=20000000), hist("TestC05History"), hist("TestC05HistoryBig", q=300, t=6000, steps=8, tsteps=10), direct("TestWiringC05", q=25, t=150, shards=4)], "assumptions": COMMON_ASSUMPTIONS},
-    "C06": {"level": "exploration", "tests": [hist("TestC06")], "assumptions": COMMON_ASSUMPTIONS},
+    "C06": {"level": "exploration", "tests": [hist("TestC06"), hist("TestC06Big", q=300, t=6000, steps=8, tsteps=10)], "assumptions": COMMON_ASSUMPTIONS},
     "C07": {"level": "exploration", "tests": [hist("TestC07"), hist("TestC07Big", q=300, t=6000, steps=8, tsteps=10)], "assumptions": COMMON_ASSUMPTIONS},
     "C08": {"level": "exploration", "tests": [hist("TestC08"), hist("TestC08Big", q=300, t=6000, steps=8, tsteps=10), direct("TestWiringC08", q=25, t=150, shards=4)], "assumptions": COMMON_ASSUMPTIONS},
     "C09": {"level": "exploration", "tests": [hist("TestC09"), hist("TestC09Twin", q=400, t=10000), hist("TestC09Big", q=300, t=6000, steps=8, tsteps=10), direct("TestWiringC09", q=25, t=150, shards=4)], "assumptions": COMMON_ASSUMPTIONS},
     "C10": {"level": "exploration", "tests": [hist("TestC10"), hist("TestC10Twin", q=400, t=10000), hist("TestC10Big", q=300, t=6000, steps=8, tsteps=10), direct("TestWiringC10", q=25, t=150, shards=4)], "assumptions": COMMON_ASSUMPTIONS},
     "C11": {"level": "exploration", "tests": [hist("TestC11"), hist("TestC11Twin", q=400, t=10000)], "assumptions": COMMON_ASSUMPTIONS},
     "C12": {"level": "exploration", "tests": [hist("TestC12"), hist("TestC12Twin", q=800, t=14000), hist("TestC12Big", q=300, t=6000, steps=8, tsteps=10)], "assumptions": COMMON_ASSUMPTIONS},
-    "C13": {"level": "exploration", "tests": [direct("TestC13", q=20000, t=2000000), direct("TestC13Percent", q=50000, t=5000000), hist("TestC13History", q=500, t=15000), direct("TestWiringC13", q=25, t=150, shards=4)], "assumptions": COMMON_ASSUMPTIONS},
+    "C13": {"level": "exploration", "tests": [direct("TestC13", q=20000, t=2000000), direct("TestC13Percent", q=50000, t=5000000), hist("TestC13History", q=500, t=15000), hist("TestC13HistoryBig", q=300, t=6000, steps=8, tsteps=10), direct("TestWiringC13", q=25, t=150, shards=4)], "assumptions": COMMON_ASSUMPTIONS},
     "C14": {"level": "exploration", "tests": [det("TestC14"), direct("TestC14Random", q=20000, t=3000000), hist("TestC14History", q=600, t=15000), direct("TestWiringC14", q=25, t=150, shards=4)], "assumptions": ["the property sentence is restated independently in harness/ref/ref.go"]},
     "C15": {"level": "exploration", "tests": [direct("TestC15Direct", q=3000, t=300000), hist("TestC15History"), direct("TestWiringC15", q=25, t=150, shards=4)], "assumptions": COMMON_ASSUMPTIONS},
     "C16": {"level": "exploration", "tests": [det("TestC16Validation"), direct("TestC16ValidationRandom", q=20000, t=3000000), direct("TestC16Decode", q=2000, t=200000), direct("TestC16Gate", q=100, t=600, shards=6),
